@@ -7,18 +7,26 @@ package libp2p
 // disconnect notifications so far, and which handler contexts are cancelled.
 
 import (
-	"time"
+	"bytes"
 	"context"
 	"encoding/json"
 	"fmt"
+	"io"
 	"math/big"
 	"sort"
+	"sync"
+	"sync/atomic"
 	"testing"
+	"time"
 
 	"github.com/ethereum/go-ethereum/common"
 	core "github.com/libp2p/go-libp2p/core"
+	"github.com/libp2p/go-libp2p/core/host"
 	"github.com/libp2p/go-libp2p/core/network"
+	"github.com/libp2p/go-libp2p/core/protocol"
 	"github.com/primevprotocol/mev-commit/pkg/p2p"
+	"github.com/primevprotocol/mev-commit/pkg/util"
+	"github.com/prometheus/client_golang/prometheus"
 )
 
 type c14Peer struct {
@@ -69,7 +77,8 @@ type c14SlowDisc struct {
 	done chan struct{}
 }
 
-func (d *c14SlowDisc) disconnected(p2p.Peer) {
+func (d *c14SlowDisc) Connected(p2p.Peer) {}
+func (d *c14SlowDisc) Disconnected(p2p.Peer) {
 	close(d.hit)
 	<-d.gate
 	close(d.done)
@@ -87,7 +96,8 @@ func c14NotifyOrder() map[string]any {
 	}()
 	r := newPeerRegistry()
 	d := &c14SlowDisc{hit: make(chan struct{}), gate: make(chan struct{}), done: make(chan struct{})}
-	r.setDisconnector(d)
+	// the registry's disconnector is the Service itself, which forwards to its notifier (the topology)
+	r.setDisconnector(&Service{notifier: d, peers: r})
 	pid := core.PeerID("peer-1")
 	p := &p2p.Peer{EthAddress: c14Addr(1), Type: p2p.PeerTypeProvider}
 	c1, c2 := &c14Conn{pid: pid, id: 1}, &c14Conn{pid: pid, id: 2}
@@ -113,6 +123,108 @@ func c14NotifyOrder() map[string]any {
 	case <-time.After(2 * time.Second):
 	}
 	return res
+}
+
+type c14Host struct {
+	host.Host
+	handler network.StreamHandler
+}
+
+func (h *c14Host) SetStreamHandlerMatch(_ protocol.ID, _ func(protocol.ID) bool, hd network.StreamHandler) {
+	h.handler = hd
+}
+
+// a stream whose bytes arrive only when the remote chooses (the header is "trickled")
+type c14SlowStream struct {
+	network.Stream
+	conn  network.Conn
+	gate  chan struct{}
+	data  *bytes.Reader
+	reset atomic.Bool
+	wr    bytes.Buffer
+	wmu   sync.Mutex
+}
+
+func (s *c14SlowStream) Read(p []byte) (int, error) {
+	<-s.gate
+	return s.data.Read(p)
+}
+func (s *c14SlowStream) Write(p []byte) (int, error) {
+	s.wmu.Lock()
+	defer s.wmu.Unlock()
+	return s.wr.Write(p)
+}
+func (s *c14SlowStream) Close() error       { return nil }
+func (s *c14SlowStream) Reset() error       { s.reset.Store(true); return nil }
+func (s *c14SlowStream) Conn() network.Conn { return s.conn }
+
+type c14Buf struct{ bytes.Buffer }
+
+func (*c14Buf) Close() error { return nil }
+func (*c14Buf) Reset() error { return nil }
+
+// c14HeaderWindow: a stream of a registered peer is still in its header phase when the peer's last
+// admitted connection closes; the header arrives afterwards.  The protocol handler must not run
+// for the (now unregistered) peer.
+func c14HeaderWindow() map[string]any {
+	res := map[string]any{"handler_ran_for_unregistered_peer": false, "panic": false}
+	var mu sync.Mutex
+	defer func() {
+		if r := recover(); r != nil {
+			mu.Lock()
+			res["panic"] = true
+			mu.Unlock()
+		}
+	}()
+	fh := &c14Host{}
+	svc := &Service{baseCtx: context.Background(), host: fh, peers: newPeerRegistry(), logger: util.NewTestLogger(io.Discard),
+		metrics: newMetrics(prometheus.NewRegistry(), "verif"), blockMap: make(map[core.PeerID]blockInfo)}
+	svc.peers.setDisconnector(svc)
+	pid := core.PeerID("peer-1")
+	admitted := &c14Conn{pid: pid, id: 1}
+	other := &c14Conn{pid: pid, id: 2} // a transport connection of the same identity that carried no handshake
+	svc.peers.addPeer(admitted, &p2p.Peer{EthAddress: c14Addr(1), Type: p2p.PeerTypeBidder})
+	ran := make(chan bool, 1)
+	svc.AddStreamHandlers(p2p.StreamDesc{Name: "verif", Version: "1.0.0", Handler: func(context.Context, p2p.Peer, p2p.Stream) error {
+		_, registered := svc.peers.getPeer(pid)
+		ran <- registered
+		return nil
+	}})
+	var hdr c14Buf
+	_ = newMetadataStream(&hdr).WriteHeader(context.Background(), p2p.Header{})
+	st := &c14SlowStream{conn: other, gate: make(chan struct{}), data: bytes.NewReader(hdr.Bytes())}
+	done := make(chan struct{})
+	go func() {
+		defer close(done)
+		defer func() {
+			if r := recover(); r != nil {
+				mu.Lock()
+				res["panic"] = true
+				mu.Unlock()
+			}
+		}()
+		fh.handler(st)
+	}()
+	time.Sleep(10 * time.Millisecond) // the wrapper has looked the peer up and waits for the header
+	svc.peers.Disconnected(nil, admitted)
+	time.Sleep(5 * time.Millisecond)
+	close(st.gate) // now the header arrives
+	select {
+	case <-done:
+	case <-time.After(2 * time.Second):
+	}
+	select {
+	case registered := <-ran:
+		if !registered {
+			mu.Lock()
+			res["handler_ran_for_unregistered_peer"] = true
+			mu.Unlock()
+		}
+	default:
+	}
+	mu.Lock()
+	defer mu.Unlock()
+	return map[string]any{"handler_ran_for_unregistered_peer": res["handler_ran_for_unregistered_peer"], "panic": res["panic"]}
 }
 
 func c14Addr(a uint64) common.Address { return common.BigToAddress(new(big.Int).SetUint64(a)) }
@@ -261,6 +373,7 @@ func TestVerifC14(t *testing.T) {
 	}
 	for k := 0; k < 3; k++ {
 		out.emit(c14In{Tag: "notify-order", Ops: []c14Op{}}, c14NotifyOrder())
+		out.emit(c14In{Tag: "header-window", Ops: []c14Op{}}, c14HeaderWindow())
 	}
 	// handler life cycles the short enumeration cannot reach: a peer that was idle for a moment (its
 	// only handler returned) gets new handlers, then its last connection closes
